@@ -32,7 +32,26 @@ class RefHooks(EditHooks):
         f = node.func
         if isinstance(f, ast.Attribute) and f.attr in ("to_list", "tolist") and not args:
             return Sym(("aslist", vkey(sm.expr(f.value, st))))
+        if fname == "iter" and len(args) == 1 and not kwargs:
+            return args[0]
+        # dict(zip(D.values(), D.keys())): the inverse map of D
+        if fname == "dict" and len(node.args) == 1 and isinstance(node.args[0], ast.Call) and isinstance(node.args[0].func, ast.Name) and node.args[0].func.id == "zip" \
+                and len(node.args[0].args) == 2:
+            a, b = node.args[0].args
+            if all(isinstance(x, ast.Call) and isinstance(x.func, ast.Attribute) and not x.args for x in (a, b)) and a.func.attr == "values" and b.func.attr == "keys" \
+                    and ast.dump(a.func.value) == ast.dump(b.func.value):
+                return Sym(("INVERSE", vkey(sm.expr(a.func.value, st))))
         return super().call(sm, node, fname, args, kwargs, st)
+
+    def comprehension(self, sm, n, st):
+        # {v: k for k, v in D.items()}: the inverse map of D
+        if isinstance(n, ast.DictComp) and len(n.generators) == 1 and not n.generators[0].ifs:
+            g = n.generators[0]
+            if isinstance(g.target, ast.Tuple) and len(g.target.elts) == 2 and all(isinstance(e, ast.Name) for e in g.target.elts) \
+                    and isinstance(g.iter, ast.Call) and isinstance(g.iter.func, ast.Attribute) and g.iter.func.attr == "items" and not g.iter.args \
+                    and isinstance(n.key, ast.Name) and isinstance(n.value, ast.Name) and n.key.id == g.target.elts[1].id and n.value.id == g.target.elts[0].id:
+                return Sym(("INVERSE", vkey(sm.expr(g.iter.func.value, st))))
+        return super().comprehension(sm, n, st)
 
     def subscript(self, base, idx):
         from .terms import RF
@@ -106,42 +125,67 @@ def compare(model, roles_, code_fn, ref_fn, rep, rule, construct, where, what, f
     ra = ref_fn.args
     pn = [x.arg for x in ra.posonlyargs + ra.args + ra.kwonlyargs]
     cl, rl = summarise(code_fn, pn), summarise(ref_fn, pn)
-    atoms = set()
-    for lf in cl + rl:
+    from .guards import literals
+    # pair the paths directly: a code path and a reference path are compared when their guards can hold together
+    def split(lf):
+        lits = {}
+        rest = []
         for g in lf.guards:
-            atoms |= atoms_of(g)
-    atoms = sorted(atoms, key=repr)
-    if len(atoms) > 14:
-        raise AnalysisError("%s: %d guard atoms" % (what, len(atoms)))
+            before = dict(lits)
+            try:
+                literals(g, True, lits)
+            except Exception:
+                lits = before
+            if lits == before and g is not True:
+                rest.append(g)
+        return lits, rest
+    cs = [(lf, split(lf), signature(lf)) for lf in cl]
+    rs = [(lf, split(lf), signature(lf)) for lf in rl]
+
+    def together(a, b):
+        la, ra = a
+        lb, rb = b
+        for k, v in la.items():
+            if k in lb and lb[k] != v:
+                return False
+        rest = ra + rb
+        if not rest:
+            return True
+        al0 = dict(la)
+        al0.update(lb)
+        free = sorted({x for g in rest for x in atoms_of(g)} - set(al0), key=repr)
+        if len(free) > 12:
+            raise AnalysisError("%s: %d free guard atoms in one pair of paths" % (what, len(free)))
+        for bits in itertools.product((False, True), repeat=len(free)):
+            al = dict(al0)
+            al.update(zip(free, bits))
+            if all(ev(g, al) is True for g in rest):
+                return True
+        return False
     ok, rows, reported = True, 0, set()
-    for bits in itertools.product((False, True), repeat=len(atoms)):
-        al = dict(zip(atoms, bits))
-        c = [lf for lf in cl if ev(And(*lf.guards), al) is True]
-        r = [lf for lf in rl if ev(And(*lf.guards), al) is True]
-        if not r:
-            continue           # the reference has no path here: the combination is infeasible
-        if len(c) != 1 or len(r) != 1:
-            if len(c) == 0:
+    for c, sc_, sigc in cs:
+        matched = False
+        for r_, sr_, sigr in rs:
+            if not together(sc_, sr_):
                 continue
-            raise AnalysisError("%s: %d code / %d reference paths hold together" % (what, len(c), len(r)))
-        rows += 1
-        sc, sr = signature(c[0]), signature(r[0])
-        if sc == sr:
-            continue
-        ok = False
-        if sc[0] != sr[0] or sc[1] != sr[1]:
-            msg = "ends with %s %s, expected %s %s" % (sc[0], show_value(c[0].value) if c[0].kind == "return" else (sc[1] or ""), sr[0], show_value(r[0].value) if r[0].kind == "return" else (sr[1] or ""))
-        else:
-            ec, er = list(sc[2]), list(sr[2])
-            k = 0
-            while k < min(len(ec), len(er)) and ec[k] == er[k]:
-                k += 1
-            got = show_effect(ec[k]) if k < len(ec) else "nothing more"
-            exp = show_effect(er[k]) if k < len(er) else "nothing more"
-            msg = "effect %d is `%s`, expected `%s`" % (k + 1, got, exp)
-        key = msg[:160]
-        if key in reported:
-            continue
-        reported.add(key)
-        rep.violation(rule, construct, where, "%s: when {%s} it %s" % (what, show_f(And(*r[0].guards))[:200], msg), "%s: %s" % (what, key))
+            matched = True
+            rows += 1
+            if sigc == sigr:
+                continue
+            ok = False
+            if sigc[0] != sigr[0] or sigc[1] != sigr[1]:
+                msg = "ends with %s %s, expected %s %s" % (sigc[0], show_value(c.value) if c.kind == "return" else (sigc[1] or ""), sigr[0], show_value(r_.value) if r_.kind == "return" else (sigr[1] or ""))
+            else:
+                ec, er = list(sigc[2]), list(sigr[2])
+                k = 0
+                while k < min(len(ec), len(er)) and ec[k] == er[k]:
+                    k += 1
+                got = show_effect(ec[k]) if k < len(ec) else "nothing more"
+                exp = show_effect(er[k]) if k < len(er) else "nothing more"
+                msg = "effect %d is `%s`, expected `%s`" % (k + 1, got, exp)
+            key = msg[:160]
+            if key in reported:
+                continue
+            reported.add(key)
+            rep.violation(rule, construct, where, "%s: when {%s} it %s" % (what, show_f(And(*r_.guards))[:200], msg), "%s: %s" % (what, key))
     return ok, rows
